@@ -210,7 +210,7 @@ type Parser interface {
 	// ParseSrc runs Parse with the real generated lexer on src.
 	ParseSrc(src []byte, rec *Recorder) Result
 	// ParseSrcCtx: the real lexer on src with a source context of the given name; the parser's own Context field is
-	// left nil (actions then log into rt.Default, which the caller sets).
+	// not touched (on a parser nobody gave a context it is nil: actions then log into rt.Default, which the caller sets).
 	ParseSrcCtx(src []byte, rec *Recorder, name string) Result
 }
 
